@@ -647,3 +647,20 @@ func checkMarkLoop(c *core.Ctx, fn *ssa.Function, mark int64, name string) {
 	}
 	c.Floor("R2", n, 1, "report-returning exits of "+fn.Name())
 }
+
+// inNaturalLoop: block b belongs to the natural loop of header hdr (it reaches a back-edge predecessor of
+// hdr without passing through hdr).
+func inNaturalLoop(b, hdr *ssa.BasicBlock) bool {
+	if b == hdr {
+		return true
+	}
+	if !hdr.Dominates(b) {
+		return false
+	}
+	for _, p := range hdr.Preds {
+		if hdr.Dominates(p) && (b == p || reachesAvoiding(b, p, hdr)) {
+			return true
+		}
+	}
+	return false
+}
